@@ -4,3 +4,6 @@ import Sheens.Match
 import Sheens.MatchSpec
 import Sheens.Oracle
 import Sheens.Wire
+import Sheens.Engine
+import Sheens.ES
+import Sheens.EngineOracle
